@@ -380,3 +380,19 @@ Theorem to_radix_be_spec p u radix : radix_std p -> 2 <= radix <= 256 -> canon u
 Proof. intros. unfold to_radix_be. rewrite to_radix_le_spec by auto. reflexivity. Qed.
 
 End WithKernels.
+
+(** Below the big-base threshold the multiplication kernel is never called. *)
+Lemma to_radix_digits_le_irrel k1 k2 kd kg p u radix : radix_std p -> zlen u < 64 ->
+  to_radix_digits_le k1 kd kg p u radix = to_radix_digits_le k2 kd kg p u radix.
+Proof.
+  intros S Hl. unfold to_radix_digits_le.
+  rewrite (rs_big_len_cmp p S), (rs_big_len p S). cbn [cmp_eval].
+  replace (zlen u >=? 64) with false by (symmetry; rewrite Z.geb_leb; apply Z.leb_gt; lia).
+  reflexivity.
+Qed.
+Lemma to_radix_le_irrel k1 k2 kd kg kb ki p u radix : radix_std p -> zlen u < 64 ->
+  to_radix_le k1 kd kg kb ki p u radix = to_radix_le k2 kd kg kb ki p u radix.
+Proof.
+  intros S Hl. unfold to_radix_le. destruct u; [reflexivity|].
+  destruct (rpow2 radix); [reflexivity|]. apply to_radix_digits_le_irrel; auto.
+Qed.
